@@ -1,7 +1,7 @@
 """C13 - dense rewards add up to the sparse objective (dispatcher part; the
 environment-step part lives in the same module and uses the env world)."""
 
-from ..dworld import DWorld, Hooks, run_ops, gen_dispatch_ops, gen_filter
+from ..dworld import DWorld, Hooks, run_ops, gen_dispatch_ops, gen_filter, mark_manual
 from ..instances import gen_instance, n_ops
 from ..util import stream
 
@@ -33,6 +33,7 @@ def generate(seed, tier):
     faulty = rng.random() < 0.5
     ops = gen_dispatch_ops(rng, n_ops(spec), p_fork=0.03 if rng.random() < 0.3 else 0.0, p_query=0.05, p_invalid=0.1 if faulty else 0.0, p_reset=0.05 if faulty else 0.0,
                            episodes=2 if rng.random() < 0.2 else 1)
+    mark_manual(stream(seed, "c13-manual"), obs, 0.12)
     cfg = {"instance": spec, "filter": names, "filter_style": style, "observers": obs, "observers_fixed": True}
     if rng.random() < 0.15:
         cfg["late_after"] = rng.randint(1, 3)  # the reward observers are attached after a few dispatches
@@ -99,12 +100,31 @@ def execute(case, ctx):
         armed = False
         orig = h.after
 
+        prev = {"MakespanReward": w.model.makespan(), "IdleTimeReward": w.model.idle_time()}
+        seen = {"MakespanReward": 0, "IdleTimeReward": 0}
+
         def after(wx, i, kind, info):
             nonlocal armed
             if kind == "reset":
                 armed = True
             if armed:
-                orig(wx, i, kind, info)
+                return orig(wx, i, kind, info)
+            if kind == "fork":
+                h.on_fork(wx)
+            if kind != "dispatch":
+                return
+            # before the first reset only what the statement implies for consecutive observed dispatches is demanded:
+            # the difference of two running sums, i.e. each reward is minus the growth of the objective; for the very
+            # first observed dispatch both readings (sum from the attachment on / sum of the whole schedule) are taken
+            for name, o, now in (("MakespanReward", h.mk, wx.model.makespan()), ("IdleTimeReward", h.idle, wx.model.idle_time())):
+                r = list(o.rewards)
+                seen[name] += 1
+                ctx.check(len(r) == seen[name], "one_reward_per_dispatch", lambda: f"op {i}: {name} attached mid-history has {len(r)} rewards after {seen[name]} dispatches since", reward=name)
+                if r:
+                    ok = {-(now - prev[name])} | ({-now} if seen[name] == 1 else set())
+                    ctx.check(r[-1] in ok, "reward_is_minus_objective_growth",
+                              lambda: f"op {i}: {name} attached mid-history emitted {r[-1]} for dispatch #{seen[name]} since; the objective went {prev[name]} -> {now}", reward=name)
+                prev[name] = now
 
         h.after = after
         ops = list(case["ops"]) + [["reset"]] + [o for o in case["ops"] if o[0] == "dispatch"]
